@@ -5,10 +5,19 @@ import KM.Gen.C09
 and ordinary requests, which observe the signer once, under the same mutex. Core-only. -/
 namespace KM.Seal
 
+/-- round 5, the contents of the key files are part of the configuration: `tryLoadAndVerifySigners` only
+checks that both files are PGP-armored, so a configured Ed25519 CA file may be encrypted under another
+passphrase, or decrypt to something that is no Ed25519 private key (another key type, another PEM type, no PEM) -/
+inductive EdFile
+  | usable | notEd25519 | otherPassphrase
+deriving DecidableEq, Repr
+
 structure Cfg where
   correct : Nat            -- the passphrase that decrypts the CA key file(s)
   signerKey : Nat          -- key inside the main CA file
   edKey : Option Nat       -- key inside the Ed25519 CA file, when configured
+  signerUsable : Bool := true   -- the plaintext of the main CA file parses as an RSA/ECDSA private key
+  edFile : EdFile := .usable    -- what the configured Ed25519 CA file turns out to be
 deriving DecidableEq, Repr
 
 structure State where
@@ -45,6 +54,18 @@ def unsealed (cfg : Cfg) (s : State) : State :=
       published := addKey s.published cfg.signerKey,
       caKeys := s.caKeys ++ [cfg.signerKey], readySignals := s.readySignals + 1 }
 
+/-- the configured Ed25519 CA file stops the load before anything is assigned (`unsealCA`: second
+`pgpDecryptFileData` fails; `loadSignersFromPemData`: parse error or the type switch's default) -/
+def edBlocks (cfg : Cfg) : Bool := cfg.edKey.isSome && cfg.edFile != .usable
+
+/-- as the code is: `loadSignersFromPemData` assigns `Ed25519Signer` and appends its CA certificate before
+it looks at the main key; when the main key is then refused these two stay behind (the server stays sealed:
+`Signer` is assigned last) -/
+def edLeft (cfg : Cfg) (s : State) : State :=
+  match cfg.edKey with
+  | some e => { s with edSigner := some e, caKeys := s.caKeys ++ [e] }
+  | none => s
+
 /-- one injection request: new state and HTTP status -/
 def inject (cfg : Cfg) (s : State) : Inj → State × Nat
   | .noTLS => (s, 500)
@@ -53,6 +74,8 @@ def inject (cfg : Cfg) (s : State) : Inj → State × Nat
   | .pass p =>
     if s.signer.isSome then (s, 400)            -- "signer not null, already unlocked"
     else if p ≠ cfg.correct then (s, 400)       -- decryption fails
+    else if edBlocks cfg then (s, 400)          -- the Ed25519 file does not decrypt / holds no Ed25519 key: nothing assigned yet
+    else if !cfg.signerUsable then (edLeft cfg s, 400)  -- main key unusable: refused, `Signer` stays nil
     else (unsealed cfg s, 200)
 
 def readyz (s : State) : Nat := if s.signer.isNone then 503 else 200
@@ -84,5 +107,23 @@ def Ready (cfg : Cfg) (s : State) : Prop :=
 /-- the seal invariant: either nothing signs, or everything is ready -/
 def Inv (cfg : Cfg) (s : State) : Prop :=
   (s.signer = none ∧ s.readySignals = 0) ∨ (Ready cfg s ∧ s.readySignals = 1)
+
+/-- **What the property demands of a state, whatever the configuration** (this is what the judge evaluates
+on the state observed on the implementation): nothing signs and nothing was signalled, or a signer is loaded,
+readiness was signalled exactly once, and every loaded signer's key is published and has a CA certificate. -/
+def Sound (s : State) : Prop :=
+  (s.signer = none ∧ s.readySignals = 0) ∨
+  (∃ k, s.signer = some k ∧ k ∈ s.published ∧ k ∈ s.caKeys ∧
+    (∀ e, s.edSigner = some e → e ∈ s.published ∧ e ∈ s.caKeys) ∧ s.readySignals = 1)
+
+def soundB (s : State) : Bool :=
+  (s.signer.isNone && s.readySignals == 0) ||
+  ((match s.signer with | some k => s.published.contains k && s.caKeys.contains k | none => false) &&
+   (match s.edSigner with | some e => s.published.contains e && s.caKeys.contains e | none => true) &&
+   s.readySignals == 1)
+
+/-- what an observer sees of a state: `/readyz` and a route that tests the seal first -/
+def obsOK (s : State) (readyzSeen : Nat) (guardRefused : Bool) : Bool :=
+  if s.signer.isNone then readyzSeen != 200 && guardRefused else readyzSeen == 200 && !guardRefused
 
 end KM.Seal
